@@ -107,6 +107,7 @@ theorem addAnswerAtTime_ok (o : OutMsg) (r : RecIn) (now : Nat) (hr : RecOK r)
   · exact h
 
 example : MsgOK ex1 := by decide
+example : RecOK (mkRec nAB 12 1 120 1000 (.ptr nCAB)) := by decide
 example : encode ex1 = .ok [#[0, 0, 0, 0, 0, 1, 0, 1, 0, 0, 0, 1, 1, 97, 1, 98, 0, 0, 12, 0, 1, 192, 12, 0, 12, 0, 1,
     0, 0, 0, 120, 0, 6, 3, 99, 46, 100, 192, 12, 192, 33, 0, 1, 128, 1, 0, 0, 17, 148, 0, 4, 10, 0, 0, 1]] := by decide
 /-- outside the domain: a 64-byte label panics -/
@@ -148,6 +149,8 @@ theorem packet_size_on_wire (o : OutMsg) (ds : List Data) (h : encode o = .ok ds
   | panic => simp [hp] at h
 
 example : questionsSize ex1 ≤ MAX_MSG_ABSOLUTE := by decide
+/-- a response without questions -/
+example : ((OutMsg.new 0x8400 0).addAdditional (mkRec nCAB 1 0x8001 4500 1000 (.a [10, 0, 0, 1]))).questions = [] := rfl
 
 /-- The four counts in the header of every packet equal the number of questions and
     records that were written into that packet and kept (`ghost`: the lists the model
@@ -240,6 +243,17 @@ theorem names_invariant_writeRecord (p p' : OutPacket) (r : RecIn) (now : Nat) (
     refine ⟨c1, fun hc => by simp at hc, fun _ x => ?_⟩
     rw [c2 x, a1]; simp
 
+/-- non-vacuity of the two invariant theorems: the fresh packet satisfies the invariant
+    (empty table); after writing `a.b.` the table has two entries (`a.b`, `b`) and the
+    invariant still holds by the theorem; the PTR record of `ex1` is in the domain -/
+example : NamesOK OutPacket.new.data OutPacket.new.names := by
+  intro e he; simp [OutPacket.new] at he
+
+example : (match OutPacket.new.writeName nAB with | .ok p => p.names | _ => []) =
+    [([0x62], 14), ([0x61, 0x2E, 0x62], 12)] := by decide
+
+example : RecWF (mkRec nAB 12 1 120 1000 (.ptr nCAB)) 0 ∧ OutPacket.new.data.size ≤ MAX_MSG_ABSOLUTE := by decide
+
 /-- Every packet, read by the independent RFC 1035 reader, yields exactly what the model
     wrote into it (`ghost`): `Ref.parse` succeeds - so the four header counts are matched
     by the entries and the last entry ends the packet - and returns the id, the flags
@@ -253,24 +267,6 @@ theorem parse_each_packet (o : OutMsg) (ps : List Packet) (h : toPackets o = .ok
       (∀ p ∈ init, Ref.parse p.data = some (expMsg o (wireId o) true p.ghost)) ∧
       Ref.parse last.data = some (expMsg o (wireId o) false last.ghost) :=
   toPackets_parse o ps h hw hq
-
-/-- messages that the reference reader must return for a list of packets: TC on all but the last -/
-def expMsgs (o : OutMsg) : List Packet → List Ref.Msg
-  | [] => []
-  | [p] => [expMsg o (wireId o) false p.ghost]
-  | p :: rest => expMsg o (wireId o) true p.ghost :: expMsgs o rest
-
-theorem expMsgs_append (o : OutMsg) (init : List Packet) (last : Packet) :
-    expMsgs o (init ++ [last]) =
-      init.map (fun p => expMsg o (wireId o) true p.ghost) ++ [expMsg o (wireId o) false last.ghost] := by
-  induction init with
-  | nil => simp [expMsgs]
-  | cons p rest ih =>
-    cases hr : rest ++ [last] with
-    | nil => simp at hr
-    | cons q t =>
-      simp only [List.cons_append, hr, expMsgs, List.map_cons]
-      rw [← hr, ih]
 
 /-- **The property (C02), on the bytes returned by `to_data_on_wire`.**  For every message
     in the domain (`MsgWF`; labels of 1..=63 bytes are implied by the encoder returning at
